@@ -110,15 +110,21 @@ func TestC20Snapshot(t *testing.T) {
 					if next()%3 == 0 {
 						// latest height: serialised against Commit only
 						commitMu.RLock()
-						res := c2.QueryRaw(p.Path, p.Req, 0)
 						h := committed.Load()
+						qh := int64(0)
+						if next()%2 == 0 {
+							qh = h // the last committed height named explicitly
+						}
+						res := c2.QueryRaw(p.Path, p.Req, qh)
 						commitMu.RUnlock()
 						got := append([]byte(fmt.Sprintf("%d|%s|", res.Code, res.Codespace)), res.Value...)
 						if exp, ok := want[h]; ok && !bytes.Equal(got, exp[i]) {
 							fail("latest-height query %q served while height %d was the last committed one answered %q, the state of height %d answers %q", p.Name, h, trunc(got, 200), h, trunc(exp[i], 200))
 						}
-					} else if top > first {
-						h := first + int64(next()%uint64(top-first+1))
+					} else if top-1 > first {
+						// strictly historical: h < last committed height (a query at the last
+						// committed height is a latest-height query and belongs to the branch above)
+						h := first + int64(next()%uint64(top-first))
 						res := c2.QueryRaw(p.Path, p.Req, h)
 						got := append([]byte(fmt.Sprintf("%d|%s|", res.Code, res.Codespace)), res.Value...)
 						if !bytes.Equal(got, want[h][i]) {
